@@ -2080,7 +2080,7 @@ class WassersteinVectorizer(BaseEstimator, TransformerMixin):
             # The constructor ensures that only implemented options are selected
             if self.method == "LOT_exact":
                 lot_dimension = self.reference_vectors_.size
-                block_size = memory_size // (lot_dimension * 8)
+                block_size = max(1, memory_size // (lot_dimension * 8))
 
                 # Checked to ensure this was not None in the constructor
                 n_rows = self.generator_n_distributions
@@ -2139,7 +2139,7 @@ class WassersteinVectorizer(BaseEstimator, TransformerMixin):
                 )
             # TODO: should probably check the vectors is also of the right type
             lot_dimension = self.reference_vectors_.size
-            block_size = memory_size // (lot_dimension * 8)
+            block_size = max(1, memory_size // (lot_dimension * 8))
 
             n_rows = len(X)
             n_blocks = (n_rows // block_size) + 1
@@ -3199,7 +3199,7 @@ class WassersteinVectorizerOld(BaseEstimator, TransformerMixin):
 
         elif isinstance(X, GeneratorType) or isinstance(vectors, GeneratorType):
             lot_dimension = self.reference_vectors_.size
-            block_size = memory_size // (lot_dimension * 8)
+            block_size = max(1, memory_size // (lot_dimension * 8))
 
             if n_distributions is None:
                 raise ValueError(
@@ -3255,7 +3255,7 @@ class WassersteinVectorizerOld(BaseEstimator, TransformerMixin):
 
         elif type(X) in (list, tuple, numba.typed.List):
             lot_dimension = self.reference_vectors_.size
-            block_size = memory_size // (lot_dimension * 8)
+            block_size = max(1, memory_size // (lot_dimension * 8))
 
             n_rows = len(X)
             n_blocks = (n_rows // block_size) + 1
